@@ -132,8 +132,18 @@ func (m *CPU) Run(app risc.Application) (int, error) {
 			m.counterFlush++
 			cycle++
 			m.writeBus.Connect(cycle)
-			for !m.areWriteUnitsEmpty() || !m.writeBus.IsEmpty() {
+			// Complete the instructions preceding the return that are still
+			// in an execute unit, a write unit or on the write bus
+			for !m.areExecuteUnitsEmpty() || !m.areWriteUnitsEmpty() || !m.writeBus.IsEmpty() {
 				m.ctx.VerifTick()
+				for _, eu := range m.executeUnits {
+					if eu.isEmpty() {
+						continue
+					}
+					if _, _, _, _, err := eu.cycle(cycle, m.ctx, app); err != nil {
+						return 0, err
+					}
+				}
 				for _, wu := range m.writeUnits {
 					wu.cycle(m.ctx, -1)
 				}
@@ -216,6 +226,15 @@ func (m *CPU) isEmpty() bool {
 	if !empty {
 		return false
 	}
+	for _, eu := range m.executeUnits {
+		if !eu.isEmpty() {
+			return false
+		}
+	}
+	return true
+}
+
+func (m *CPU) areExecuteUnitsEmpty() bool {
 	for _, eu := range m.executeUnits {
 		if !eu.isEmpty() {
 			return false
